@@ -23,6 +23,11 @@ CAT_ONEQ = [coll("c1", 101, ["sa_101v0"], ["ta_901v0"], 901),
             coll("c2", 102, ["sa_102v0"], ["ta_902v0"], 902),
             coll("c3", 103, ["sa_103v0"], ["ta_903v0"], 903)]
 
+# two source pchannels multiplexed on one downstream pchannel (reader config: 2 source channels, 1 target channel):
+# one channel handler per source pchannel, both on downstream channel ta
+CAT_2H = [coll("c1", 101, ["sa_101v0"], ["ta_901v0"], 901),
+          coll("c2", 102, ["sb_102v0"], ["ta_902v0"], 902)]
+
 # PipeRoute_MC CollsX: c1 two shards sa->ta, sb->tb; c2 one shard sa->tb; c3 one shard sb->ta
 CAT_X = [coll("c1", 101, ["sa_101v0", "sb_101v1"], ["ta_901v0", "tb_901v1"], 901),
          coll("c2", 102, ["sa_102v0"], ["tb_902v0"], 902),
